@@ -377,6 +377,9 @@ class Intrinsics:
             return z3.And(*parts) if parts else True
         if isinstance(a, SAny) and isinstance(b, SAny):
             return a.t == b.t
+        prim = (SInt, SBool, SReal, SStr, SMarkup, int, float, bool, str)
+        if (isinstance(a, (HList, HDict)) and isinstance(b, prim)) or (isinstance(b, (HList, HDict)) and isinstance(a, prim)):
+            return False   # a list/dict never equals a number or a string
         if isinstance(a, (HList, SSeq)) and isinstance(b, (HList, SSeq)):
             sa, sb = self.seq_term(a), self.seq_term(b)
             if sa is None or sb is None:
@@ -925,6 +928,12 @@ class Intrinsics:
                     v = z3.Select(ex.heap_field_array(attr), obj.t)
                     return ex.unbox(v) if kind == "any" else wrap(v, kind)
                 return wrap(field_fn(attr, kind)(obj.t), kind)
+            if attr in ex.contract.opaque_methods:
+                rt = ex.contract.opaque_methods[attr]
+                self.use(f"dynamic dispatch {attr}(): opaque call on an AST node of any subclass")
+                if callable(rt) and not hasattr(rt, "fresh"):
+                    return PyCallable(lambda ex_, a, k, _o=obj, _m=attr, _h=rt: _h(ex_, _o, _m, list(a)), attr)
+                return PyCallable(lambda ex_, a, k, _m=attr, _t=rt: (_t.fresh(ex_, f"{_m}_result") if _t is not None else None), attr)
             if attr in ("items", "keys", "values"):
                 self.use("Mapping.items()/keys()/values() of opaque data: an opaque iterable, empty iff the mapping is falsy")
                 return PyCallable(lambda ex_, a, k, _o=obj: Tagged("opaque-iter", _o), attr)
